@@ -338,6 +338,11 @@ class Engine:
         terms = []
         for op, comp in zip(node.ops, node.comparators):
             right = self.eval(comp, st, spec)
+            if not spec and type(op).__name__ in ("Lt", "LtE", "Gt", "GtE"):
+                # ordering None against a number raises TypeError in Python 3
+                from .builtins_ import unwrap_opt
+                left = unwrap_opt(self, st, left, self.origin(node))
+                right = unwrap_opt(self, st, right, self.origin(node))
             terms.append(py_compare(self, type(op).__name__, left, right))
             left = right
         return V(BOOL, And(*terms))
